@@ -37,6 +37,7 @@ var errC20Prior = errors.New("verif: earlier middleware failed")
 type c20Seen struct {
 	method, uri, auth, ctype string
 	hasAuth                  bool
+	injected                 bool // a header line the caller never set arrived (X-Injected)
 	body                     []byte
 	proto                    int
 }
@@ -47,6 +48,7 @@ type c20Script struct {
 	www          []string // WWW-Authenticate values of the first response
 	firstBody    string
 	rejectSecond bool // answer the authenticated request with 401 again
+	proxyAuth    bool // repeat the challenges as Proxy-Authenticate
 }
 
 type c20Origin struct {
@@ -66,7 +68,7 @@ func (o *c20Origin) ServeHTTP(w http.ResponseWriter, rq *http.Request) {
 		return
 	}
 	a, has := rq.Header["Authorization"]
-	sn := c20Seen{method: rq.Method, uri: rq.RequestURI, hasAuth: has, body: body, proto: rq.ProtoMajor, ctype: rq.Header.Get("Content-Type")}
+	sn := c20Seen{method: rq.Method, uri: rq.RequestURI, hasAuth: has, body: body, proto: rq.ProtoMajor, ctype: rq.Header.Get("Content-Type"), injected: rq.Header.Get("X-Injected") != ""}
 	if has {
 		sn.auth = strings.Join(a, "\x00")
 	}
@@ -86,6 +88,9 @@ func (o *c20Origin) ServeHTTP(w http.ResponseWriter, rq *http.Request) {
 		}
 		for _, v := range sc.www {
 			w.Header().Add("WWW-Authenticate", v)
+			if sc.proxyAuth {
+				w.Header().Add("Proxy-Authenticate", v)
+			}
 		}
 		w.Header().Set("Content-Type", "text/plain")
 		w.WriteHeader(sc.firstStatus)
@@ -187,7 +192,7 @@ var c20Witnesses = []c20Witness{
 }
 
 // c20Exchange generates one case, runs it on the real client and records the verdicts.
-func c20Exchange(t *testing.T, s *verifh.Session, r *rand.Rand, o *c20Origin, mode c20Run, known map[string]int, count func(string)) {
+func c20Exchange(t *testing.T, s *verifh.Session, j *c20Judge, r *rand.Rand, o *c20Origin, mode c20Run, known map[string]int, count func(string)) {
 	// ---- what the origin will do
 	var sc c20Script
 	var gen *c20Chal
@@ -195,27 +200,34 @@ func c20Exchange(t *testing.T, s *verifh.Session, r *rand.Rand, o *c20Origin, mo
 	switch k := r.Intn(20); {
 	case k < 13:
 		sc.firstStatus = 401
-		g := c20GenChallenge(r, true)
+		g := c20GenHeader(r, true)
 		gen = &g
-		sc.www = []string{g.raw}
+		sc.www = append([]string(nil), g.lines...)
+		for tg := range g.tags {
+			count("tag:" + tg)
+		}
 	case k == 13:
 		sc.firstStatus = 401
 		switch r.Intn(5) {
 		case 0: // no challenge at all
 		case 1:
-			sc.www = []string{verifh.Pick(r, []string{"Basic realm=\"x\"", "Bearer", "Negotiate", "NTLM"})}
+			sc.www = []string{verifh.Pick(r, c20OtherChallenges)}
 		case 2:
 			g := c20GenChallenge(r, true)
+			gen = &g
 			sc.www = []string{"Basic realm=\"fallback\"", g.raw}
 		case 3:
-			sc.www = []string{c20Mutate(r, c20GenChallenge(r, true).raw)}
+			sc.www = []string{c20Mutate(r, c20GenHeader(r, true).raw)}
 		default:
 			sc.www = []string{verifh.Pick(r, c20Junk)}
 		}
 	case k < 19:
 		sc.firstStatus = verifh.Pick(r, []int{200, 200, 201, 204, 400, 403, 404, 407, 402, 500, 503, 400})
 		if r.Intn(2) == 0 {
-			sc.www = []string{c20GenChallenge(r, true).raw} // a challenge on a non-401 must be ignored
+			sc.www = c20GenHeader(r, true).lines // a challenge on a non-401 must be ignored
+			if sc.firstStatus == 407 {
+				sc.proxyAuth = true // ... and a 407 is not answered with Authorization either
+			}
 		}
 	default:
 		sc.firstStatus = 0
@@ -246,6 +258,11 @@ func c20Exchange(t *testing.T, s *verifh.Session, r *rand.Rand, o *c20Origin, mo
 	pass, _ := c20Text(r, true)
 	for strings.ContainsAny(user, "\r\n\x00") || !c20HeaderSafe(user) {
 		user, ku = c20Text(r, false)
+	}
+	if r.Intn(30) == 0 {
+		// a user name no field value can carry: the transport must refuse the authorized request
+		// (unless the name is sent hashed), never send something else
+		user, ku = verifh.RandBytes(r, 1+r.Intn(5), "ab")+verifh.Pick(r, []string{"\r\nX-Injected: 1", "\x00", "\x7f", "\n", "\x1f"}), "control"
 	}
 	method := verifh.Pick(r, []string{"GET", "GET", "POST", "POST", "PUT", "PATCH", "DELETE", "HEAD", "OPTIONS"})
 	uri := verifh.Pick(r, c20URIs)
@@ -307,12 +324,26 @@ func c20Exchange(t *testing.T, s *verifh.Session, r *rand.Rand, o *c20Origin, mo
 		c.SetCommonFormData(map[string]string{"k": verifh.RandBytes(r, 3, "abc")})
 	}
 	rnd := []byte(verifh.RandBytes(r, 16, ""))
+	// SetOutput: the caller wants the body of the FINAL response in a writer (the 401 of an answered
+	// challenge must not end up there - whatever way the challenge is written)
+	var saved *bytes.Buffer
+	if mode.fixed == nil && r.Intn(6) == 0 {
+		saved = &bytes.Buffer{}
+		rq.SetOutput(saved)
+		count("save-output")
+	}
 	rq.SetHeader("X-Verif-Case", o.begin(sc))
 	var undo func()
 	if mode.identity {
 		undo = c20InjectRand(rnd, false)
 	}
 	var resp *Response
+	text := func() string {
+		if saved != nil {
+			return saved.String()
+		}
+		return resp.String()
+	}
 	p, pan := verifh.Safely(func() { resp, _ = rq.Send(method, o.srv.URL+uri) })
 	if undo != nil {
 		undo()
@@ -350,6 +381,9 @@ func c20Exchange(t *testing.T, s *verifh.Session, r *rand.Rand, o *c20Origin, mo
 	if len(sc.www) > 0 {
 		www = sc.www[0]
 	}
+	if len(sc.www) > 1 {
+		count("www-lines>1")
+	}
 	status, errFlag := sc.firstStatus, "0"
 	if status == 0 {
 		status, errFlag = 401, "1" // transport error: no response at all
@@ -361,8 +395,10 @@ func c20Exchange(t *testing.T, s *verifh.Session, r *rand.Rand, o *c20Origin, mo
 	if mode.identity {
 		lane = "c20handle"
 	}
-	line := fmt.Sprintf("%s %d %s %s %s %s %s %s %s %s %x", lane, status, errFlag, verifh.Hex(www), verifh.Hex(user), verifh.Hex(pass),
+	tail := fmt.Sprintf("%s %s %s %s %s %s %x", verifh.Hex(user), verifh.Hex(pass),
 		verifh.Hex(method), verifh.Hex(uri), bkind, verifh.Hex(string(seen[0].body)), rnd)
+	line := fmt.Sprintf("%s2 %d %s %s %s", lane, status, errFlag, verifh.HexList(sc.www), tail)
+	legacy := fmt.Sprintf("%s %d %s %s %s", lane, status, errFlag, verifh.Hex(www), tail) // the code as found reads the first line only
 	// ---- what the implementation did
 	var impl string
 	derr := c20ErrName(resp.Err)
@@ -409,7 +445,7 @@ func c20Exchange(t *testing.T, s *verifh.Session, r *rand.Rand, o *c20Origin, mo
 				fail("error on a non-401 response: " + resp.Err.Error())
 			} else if resp.StatusCode != sc.firstStatus {
 				fail(fmt.Sprintf("status %d reported for %d", resp.StatusCode, sc.firstStatus))
-			} else if method != "HEAD" && sc.firstStatus != 204 && resp.String() != sc.firstBody {
+			} else if method != "HEAD" && sc.firstStatus != 204 && text() != sc.firstBody {
 				fail("response body changed")
 			}
 		}
@@ -426,13 +462,16 @@ func c20Exchange(t *testing.T, s *verifh.Session, r *rand.Rand, o *c20Origin, mo
 	normalised := false
 	if len(seen) == 2 && resp.Err == nil && resp.StatusCode == 200 && method != "HEAD" {
 		// informational only (outside the property): which body does the caller see after the resend?
-		switch resp.String() {
+		switch text() {
 		case "granted":
 			count("note:final-body=second-response")
 		case sc.firstBody:
 			count("note:final-body=stale-401-body")
 		default:
 			count("note:final-body=other")
+		}
+		if saved != nil && saved.String() != "granted" {
+			fail(fmt.Sprintf("SetOutput holds %q after the challenge was answered and the request granted, not the final response", c20Clip(saved.String())))
 		}
 	}
 	if len(seen) >= 2 {
@@ -513,8 +552,8 @@ func c20Exchange(t *testing.T, s *verifh.Session, r *rand.Rand, o *c20Origin, mo
 			}
 			known["sess"]++
 			impl = "err qop"
-		case gen == nil:
-			// answered something that was not generated as a challenge: judged by the model only
+		case gen == nil || gen.broken || !c20Answerable(gen.is):
+			// answered something that was not generated as an answerable challenge: judged by the model only
 		default:
 			x := c20Ctx{is: gen.is, method: seen[0].method, uri: seen[0].uri, user: user, pass: pass, body: second.body}
 			good, vwhy := c20Verify(hf, x, hdr)
@@ -574,7 +613,8 @@ func c20Exchange(t *testing.T, s *verifh.Session, r *rand.Rand, o *c20Origin, mo
 		s.Observe(id, ok, class, false, human, why)
 		return
 	}
-	s.Case(line, impl, ok, class, len(seen) == 2 || strings.HasPrefix(impl, "err "), human)
+	_ = class
+	j.add(c20Pending{line: line, legacy: legacy, impl: impl, ok: ok, nontrivial: len(seen) == 2 || strings.HasPrefix(impl, "err "), human: human})
 }
 
 func c20HeaderSafe(v string) bool {
@@ -610,7 +650,7 @@ func c20Counter(s *verifh.Session) (map[string]int, func(string)) {
 
 func TestVerif_C20_handle(t *testing.T) {
 	s := verifh.New(t, "C20", "handle",
-		"real client (HTTP/1.1 loopback) with SetDigestAuth / SetCommonDigestAuth against an origin scripted per case: first response 401 with a grammatical challenge (65%), 401 with no / foreign / two / damaged / junk challenge, other statuses with or without a challenge, dropped connection; methods x URIs with queries x body kinds (none, bytes, 70 KB, string, json, form, ordered form, multipart, GetBody func, io.Reader, client-level form); hashFuncs = tagged identity hash and injected entropy, so the model predicts untouched / error kind / the exact Authorization value and body of the second request; oracle: non-401 untouched, at most one resend, same method+target+body, origin's RFC 7616 verifier accepts; non-trivial = resent or named error")
+		"real client (HTTP/1.1 loopback) with SetDigestAuth / SetCommonDigestAuth against an origin scripted per case: first response 401 with a grammatical RFC 7235 challenge list in 1-3 WWW-Authenticate lines (65%; several challenges, several Digest challenges, other schemes, token68), 401 with no / foreign / two / damaged / junk challenge, other statuses with or without a challenge, dropped connection; methods x URIs with queries x body kinds (none, bytes, 70 KB, string, json, form, ordered form, multipart, GetBody func, io.Reader, client-level form) x SetOutput in 1/6 x user names with control bytes in 1/30; hashFuncs = tagged identity hash and injected entropy, so the model predicts untouched / error kind / the exact Authorization value and body of the second request; oracle: non-401 untouched, at most one resend, same method+target+body, origin's RFC 7616 verifier accepts; non-trivial = resent or named error")
 	restore, _ := c20InstallIdentity()
 	defer restore()
 	o := c20NewOrigin(false)
@@ -618,17 +658,20 @@ func TestVerif_C20_handle(t *testing.T) {
 	r := s.Rand()
 	cnt, count := c20Counter(s)
 	known := map[string]int{}
+	j := &c20Judge{s: s}
 	n := verifh.N(1500, 30000)
-	must := []string{"outcome:untouched", "outcome:resend", "outcome:err bad-challenge", "outcome:err alg", "outcome:err qop", "prior-middleware-error", "status:0", "status:401", "status:200", "verifier-accepted", "body:multipart", "body:stream", "body:big"}
+	must := []string{"outcome:untouched", "outcome:resend", "outcome:err bad-challenge", "outcome:err alg", "outcome:err qop", "outcome:err invalid-header", "prior-middleware-error", "status:0", "status:401", "status:200", "status:407", "verifier-accepted", "body:multipart", "body:stream", "body:big",
+		"tag:multi", "tag:multi-line", "tag:several-digest", "www-lines>1"}
 	for i := range c20Witnesses {
-		c20Exchange(t, s, r, o, c20Run{identity: true, fixed: &c20Witnesses[i]}, known, count)
+		c20Exchange(t, s, j, r, o, c20Run{identity: true, fixed: &c20Witnesses[i]}, known, count)
 	}
 	for i := 0; i < n || !c20All(cnt, must); i++ {
 		if i > 20*n {
 			t.Fatalf("declared buckets not reached: %v", cnt)
 		}
-		c20Exchange(t, s, r, o, c20Run{identity: true}, known, count)
+		c20Exchange(t, s, j, r, o, c20Run{identity: true}, known, count)
 	}
+	j.flush()
 	s.Finish()
 }
 
@@ -647,6 +690,7 @@ func TestVerif_C20_e2e(t *testing.T) {
 	r := s.Rand()
 	cnt, count := c20Counter(s)
 	known := map[string]int{}
+	j := &c20Judge{s: s}
 	for _, h2 := range []bool{false, true} {
 		o := c20NewOrigin(h2)
 		n := verifh.N(900, 20000)
@@ -657,16 +701,17 @@ func TestVerif_C20_e2e(t *testing.T) {
 		key := map[bool]string{false: "h1:", true: "h2:"}[h2]
 		must := []string{key + "outcome:untouched", key + "outcome:resend", key + "verifier-accepted", key + "outcome:err bad-challenge"}
 		for i := range c20Witnesses {
-			c20Exchange(t, s, r, o, c20Run{h2: h2, fixed: &c20Witnesses[i]}, known, tagc)
+			c20Exchange(t, s, j, r, o, c20Run{h2: h2, fixed: &c20Witnesses[i]}, known, tagc)
 		}
 		for i := 0; i < n || !c20All(cnt, must); i++ {
 			if i > 20*n {
 				t.Fatalf("declared buckets not reached: %v", cnt)
 			}
-			c20Exchange(t, s, r, o, c20Run{h2: h2}, known, tagc)
+			c20Exchange(t, s, j, r, o, c20Run{h2: h2}, known, tagc)
 		}
 		o.srv.Close()
 	}
+	j.flush()
 	s.Finish()
 }
 
